@@ -166,7 +166,13 @@ def main():
     if a.mode == 'replay':
         rep = json.load(open(a.file))
         f = rep.get('failing') or {}
-        if f.get('cfg'):
+        if f.get('key') == 'requested-sigma0':
+            c_ = dict(f['cfg']); name = c_.pop('preset')
+            qn = import_qsc().Qsc.from_paper(name, nphi=31, **c_)
+            res['predictions_checked'] = 1
+            if [k for k, v_ in c_.items() if float(getattr(qn, k)) != v_] or ('sigma0' in c_ and float(qn.sigma[0]) != c_['sigma0']):
+                res['violations'] = [f]
+        elif f.get('cfg'):
             res['violations'], res['predictions_checked'] = predict(f['cfg'], rng)
         print(json.dumps(res, default=str))
         return
@@ -178,6 +184,21 @@ def main():
         v, n = predict(c_, rng, q_, [])
         res['predictions_checked'] += n; res['violations'] += v; res['configs'] += 1
         dist['corpus'] = dist.get('corpus', 0) + 1
+    # "sigma at phi = 0 equals the REQUESTED sigma0", also when the request is zero and goes through a named configuration whose own sigma0 / I2 is not zero
+    try:
+        import logging
+        qsc_ = import_qsc()
+        for name, ov in (('r1 section 5.3', dict(sigma0=0.0)), ('r2 section 5.5', dict(sigma0=0.0, I2=0.0)), ('r2 section 5.3', dict(I2=0.0))):
+            logging.disable(logging.CRITICAL)
+            qn = qsc_.Qsc.from_paper(name, nphi=31, **ov)
+            logging.disable(logging.NOTSET)
+            res['predictions_checked'] += 1; res['configs'] += 1
+            badk = [k for k, v_ in ov.items() if float(getattr(qn, k)) != v_]
+            if badk or ('sigma0' in ov and float(qn.sigma[0]) != ov['sigma0']):
+                res['violations'].append(dict(key='requested-sigma0', what='from_paper(%r, %s): the object has %s and sigma[0] = %r' % (name, ov, {k: float(getattr(qn, k)) for k in ov}, float(qn.sigma[0])),
+                                              cfg=dict(preset=name, **ov)))
+    except Exception:
+        logging.disable(logging.NOTSET)
     qh = dict(rc=[1.0, 0.17, 0.01804, 0.001409], zs=[0.0, 0.1581, 0.01820, 0.001548], nfp=4, etabar=1.569, nphi=31)
     for hard in (dict(qh, sigma0=1.0e6), dict(qh, etabar=300.0), dict(qh, sigma0=-3.0e4, spsi=-1)):
         try:
